@@ -662,6 +662,97 @@ def r_itermut(E):
     return res
 
 
+# ---------------------------------------------------------------------------------------------- R-MUTDEF
+_MD_POSITIVE = '''
+def put_back(pairs, restored_ids=[]):
+    for previous, new in pairs:
+        if new.id in restored_ids:
+            continue
+        restored_ids.append(new.id)
+        new.replace(previous)
+    return restored_ids
+def collect(x, seen={}):
+    seen[x.id] = x
+    return seen
+'''
+_MD_NEGATIVE = '''
+def put_back(pairs, restored_ids=None):
+    restored_ids = [] if restored_ids is None else restored_ids
+    for previous, new in pairs:
+        restored_ids.append(new.id)
+    return restored_ids
+def total(xs, weights=()):
+    return sum(x * w for x, w in zip(xs, weights))
+def names(xs, skip=[]):
+    return [x for x in xs if x not in skip]
+def call(method, params={}):
+    params["criteria"] = params.get("criteria", ["gwp"])
+    return method(**params)
+'''
+_GROW = {"append", "extend", "add", "update", "insert", "setdefault", "pop", "remove", "clear", "discard", "popitem", "sort"}
+
+
+def mutated_defaults(tree):
+    """[(function, parameter)]: parameters whose default is a mutable literal created once at definition time and that
+    the body mutates in place (or stores into): the state survives from one call to the next"""
+    out = []
+    for fn in ast.walk(tree):
+        if not isinstance(fn, (ast.FunctionDef, ast.AsyncFunctionDef)):
+            continue
+        pos = fn.args.posonlyargs + fn.args.args
+        pairs = list(zip(pos[len(pos) - len(fn.args.defaults):], fn.args.defaults)) + [
+            (a, d) for a, d in zip(fn.args.kwonlyargs, fn.args.kw_defaults) if d is not None]
+        for a, d in pairs:
+            mutable = isinstance(d, (ast.List, ast.Dict, ast.Set)) or (
+                isinstance(d, ast.Call) and isinstance(d.func, ast.Name) and d.func.id in ("list", "dict", "set", "defaultdict"))
+            if not mutable:
+                continue
+            rebound = any(isinstance(n, ast.Assign) and any(isinstance(t, ast.Name) and t.id == a.arg for t in n.targets)
+                          for n in ast.walk(fn))
+            if rebound:
+                continue
+            for n in ast.walk(fn):
+                hit = (isinstance(n, ast.Call) and isinstance(n.func, ast.Attribute) and n.func.attr in _GROW
+                       and isinstance(n.func.value, ast.Name) and n.func.value.id == a.arg) or \
+                      (isinstance(n, (ast.Assign, ast.AugAssign)) and any(
+                          isinstance(t, ast.Subscript) and isinstance(t.value, ast.Name) and t.value.id == a.arg
+                          # (a constant key given a value that depends on nothing but the table itself is the same
+                          # write at every call: `params["criteria"] = params.get("criteria", ["gwp"])`)
+                          and not (isinstance(n, ast.Assign) and isinstance(t.slice, ast.Constant) and not (
+                              {x.id for x in ast.walk(n.value) if isinstance(x, ast.Name)} - {a.arg}))
+                          for t in (n.targets if isinstance(n, ast.Assign) else [n.target]))) or \
+                      (isinstance(n, ast.AugAssign) and isinstance(n.target, ast.Name) and n.target.id == a.arg)
+                if hit:
+                    out.append((fn, a.arg, n, d))
+                    break
+    return out
+
+
+@rule("R-MUTDEF")
+def r_mutdef(E):
+    pm = E.pm
+    res = RuleResult("R-MUTDEF", "no function mutates a parameter whose default value is a mutable literal: the default is "
+                                 "created once, when the function is defined, so what one call appends is still there at the "
+                                 "next call (values 'already put back' by one failed update are skipped by every later one)")
+    for mod, (rel, tree, src) in sorted(pm.modules.items()):
+        res.instances += len([f for f in ast.walk(tree) if isinstance(f, ast.FunctionDef) and (f.args.defaults or any(
+            d is not None for d in f.args.kw_defaults))])
+        for fn, pname, n, dflt in mutated_defaults(tree):
+            res.findings.append(Finding(
+                "R-MUTDEF", f"{rel}:{fn.name} :: default of {pname}",
+                f"{fn.name} mutates its parameter `{pname}` (`{norm(n)[:60]}`), whose default `{norm(dflt)}` is a "
+                f"single object shared by all calls that do not pass it: state leaks from one call — one update, one "
+                f"model — to the next", rel, n.lineno, fn.name, {"clauses": _area(rel)}))
+    pos = mutated_defaults(set_parents(ast.parse(_MD_POSITIVE)))
+    neg = mutated_defaults(set_parents(ast.parse(_MD_NEGATIVE)))
+    if len(pos) != 2 or neg:
+        raise AnalysisError(f"R-MUTDEF: embedded examples: {len(pos)} of 2 positive recognised, {len(neg)} false reports")
+    res.instances += 2
+    res.samples = [{"embedded_positive_examples_recognised": 2, "embedded_twins_silent": True}]
+    res.floor = 20
+    return res
+
+
 # ---------------------------------------------------------------------------------------------- R-ORDEFAULT
 @rule("R-ORDEFAULT")
 def r_ordefault(E):
